@@ -261,8 +261,148 @@ def r20_4(F, R):
             R.violation("R20.4", "GroupingContainer::insert", "%s: %s" % (fn.name, msg), loc)
 
 
+def _in_cycle_avoiding(fn, b, avoid):
+    """block b lies on a CFG cycle that does not pass through any block of `avoid` (cleanup blocks excluded)"""
+    succ = fn.succ()
+    seen = set()
+    stack = [s for s in succ[b] if s not in avoid]
+    while stack:
+        x = stack.pop()
+        if x == b:
+            return True
+        if x in seen or x in avoid or fn.blocks[x].get("cleanup"):
+            continue
+        seen.add(x)
+        stack.extend(succ[x])
+    return False
+
+
+def r20_5(F, R):
+    IN = "texcraft_stdext::collections::interner"
+    R.rule("R20.5", "interner collision chains (structural necessary conditions of 'equal keys exactly for equal strings even when all hashes collide'): "
+                    "(a) no chain node is lost: a store to a LinkedList `next` link either stores a value derived from the bucket's previous content "
+                    "(mem::replace / take) or overwrites a link known to be None; (b) get_internal returns a key only after comparing the resolved string "
+                    "with the query, and otherwise advances along `next` inside a loop; (c) get_or_intern consults get_internal before allocating a key")
+    # (a)
+    n = 0
+    for fn in F.fns.values():
+        if not fn.name.startswith(IN + "::") or "::tests::" in fn.name:
+            continue
+        flow = None
+        dom = None
+        for bi, b in enumerate(fn.blocks):
+            if b.get("cleanup"):
+                continue
+            for st in b["s"]:
+                if st["k"] != "=":
+                    continue
+                fp = field_path(st["lhs"])
+                if not fp or fp[-1] != "next":
+                    continue
+                # the place must be a field of an existing node (through a reference), not the initialiser of a fresh aggregate
+                if "*" not in st["lhs"]["p"]:
+                    continue
+                n += 1
+                flow = flow or Flow(fn)
+                og = flow.operand_origins(st["rv"]["op"]) if st["rv"]["k"] == "use" else set()
+                calls = {strip_generics(v).split("::")[-1] for k, v in og if k == "call" and v}
+                inst = "%s/next-store" % fn.name.replace(IN + "::", "")
+                if calls & {"replace", "take", "swap"} or ("field", "next") in og:
+                    R.ok("R20.5", inst, "stored link derives from the previous content (%s)" % sorted(calls & {"replace", "take", "swap"} or {"next"}), fn.loc(st), how="def-use")
+                    continue
+                # tail append: dominated by the None arm of a test on a `next` link
+                dom = dom or dominators(fn)
+                defs = Defs(fn)
+                ok = False
+                for b2i, b2 in enumerate(fn.blocks):
+                    t2 = b2["t"]
+                    if t2["k"] != "switch":
+                        continue
+                    p = op_place(t2["op"])
+                    d = defs.single(p["l"]) if p is not None and not p["p"] else None
+                    if d and d[0] == "st" and d[3]["k"] == "=" and d[3]["rv"]["k"] == "discr":
+                        rp = defs.resolve_place({"cp": d[3]["rv"]["pl"]})
+                        if rp is not None and (field_path(rp) or [None])[-1] == "next":
+                            none_t = dict(t2["ts"]).get(0)
+                            if none_t is not None and none_t in dom[bi]:
+                                ok = True
+                if ok:
+                    R.ok("R20.5", inst, "overwrites a link tested to be None", fn.loc(st), how="dominator")
+                else:
+                    R.violation("R20.5", inst, "%s overwrites a chain link with a value that does not contain the previous chain (origins: %s): every key "
+                                "already in that hash bucket behind this node is lost, so a colliding string is interned twice" % (fn.name, sorted(calls) or "fresh node"), fn.loc(st))
+    R.floor("R20.5", "stores to a chain link", n, 1)
+    # (b)
+    gi = _one(F, IN + "::Interner::get_internal")
+    eqs = [bi for bi, t in gi.calls() if strip_generics(callee_name(t) or "").split("::")[-1] in ("eq", "ne") and any(
+        "str" in gi.local_ty(op_place(a)["l"]) for a in t["args"] if op_place(a) is not None)]
+    res = [bi for bi, t in gi.calls() if strip_generics(callee_name(t) or "").endswith("Interner::resolve")]
+    some_ret = [bi for bi, b in enumerate(gi.blocks) for st in b["s"] if st["k"] == "=" and st["lhs"]["l"] == 0 and st["rv"]["k"] == "agg"
+                and st["rv"].get("variant") == "Some"]
+    loc = "%s:%d" % (gi.file, gi.line)
+    if not eqs or not res or not some_ret:
+        R.violation("R20.5", "get_internal/compare", "get_internal has %d string comparisons, %d resolve calls, %d `Some(key)` results: a key must only be returned "
+                    "after its resolved string was compared with the query (equal hashes do not imply equal strings)" % (len(eqs), len(res), len(some_ret)), loc)
+    else:
+        dom = dominators(gi)
+        bad = [b for b in some_ret if not any(e in dom[b] for e in eqs) or not any(r in dom[b] for r in res)]
+        if bad:
+            R.violation("R20.5", "get_internal/compare", "get_internal can return a key without comparing its string with the query", gi.loc(gi.blocks[bad[0]]["t"]))
+        else:
+            R.ok("R20.5", "get_internal/compare", "every Some(key) is dominated by resolve + string equality", loc, how="dominator")
+    nxt = [bi for bi, b in enumerate(gi.blocks) for st in b["s"] if st["k"] == "=" and st["rv"]["k"] in ("ref", "discr", "use")
+           and "next" in (field_path(st["rv"].get("pl") or op_place(st["rv"].get("op", {})) or {"l": 0, "p": []}) or [])]
+    if nxt and any(_in_cycle_avoiding(gi, b, set()) for b in nxt):
+        R.ok("R20.5", "get_internal/walk", "the `next` link is followed inside a loop", loc, how="cycle")
+    else:
+        R.violation("R20.5", "get_internal/walk", "get_internal does not walk the whole collision chain (no loop over `next`): a string whose hash collides with "
+                    "an earlier one is not found and gets a second key", loc)
+    # (c)
+    goi = _one(F, IN + "::Interner::get_or_intern")
+    calls = {strip_generics(callee_name(t) or "").split("::")[-1]: bi for bi, t in goi.calls()}
+    loc = "%s:%d" % (goi.file, goi.line)
+    if "get_internal" in calls and "populate_dedup_map" in calls and calls["get_internal"] in dominators(goi)[calls["populate_dedup_map"]]:
+        R.ok("R20.5", "get_or_intern/lookup-first", "get_internal dominates populate_dedup_map", loc, how="dominator")
+    else:
+        R.violation("R20.5", "get_or_intern/lookup-first", "get_or_intern allocates a key without first looking the string up (calls: %s)" % sorted(calls), loc)
+
+
+def r20_6(F, R):
+    M = "texcraft_stdext::algorithms::substringsearch"
+    R.rule("R20.6", "streaming matcher (structural necessary condition of 'reports exactly the positions where the pattern ends'): the Knuth-Morris-Pratt "
+                    "fallback `state := prefix_fn[state-1]` on a mismatch is iterated — it sits on a cycle of its own (not the outer per-element loop) "
+                    "whose condition re-tests the mismatch — both when the prefix function is built (Matcher::new) and when a text element is consumed "
+                    "(Search::next); a single fallback step accepts wrong borders for patterns such as `aaab`")
+    for nm in (M + "::Matcher::new", M + "::Search::next"):
+        fn = _one(F, nm)
+        flow = Flow(fn)
+        outer = {bi for bi, t in fn.calls() if strip_generics(callee_name(t) or "").endswith("Iterator::next") or "::next" in strip_generics(callee_name(t) or "") and "iter" in strip_generics(callee_name(t) or "")}
+        fallback = []
+        for bi, t in fn.calls():
+            n = strip_generics(callee_name(t) or "")
+            if "ops::index::Index" in n and n.endswith("::index") and t["args"]:
+                og = flow.operand_origins(t["args"][0])
+                names = {fn.local_name(v) for k, v in og if k == "local"} | {v for k, v in og if k == "field"}
+                if "prefix_fn" in names:
+                    fallback.append(bi)
+        cmpb = {bi for bi, t in fn.calls() if strip_generics(callee_name(t) or "").split("::")[-1] in ("ne", "eq")}
+        loc = "%s:%d" % (fn.file, fn.line)
+        inst = nm.replace(M + "::", "")
+        if not fallback:
+            raise AnchorError("R20.6: no prefix_fn lookup in %s" % nm)
+        looping = [b for b in fallback if _in_cycle_avoiding(fn, b, outer)]
+        with_test = [b for b in looping if any(_in_cycle_avoiding(fn, b, outer | {c}) is False for c in cmpb)]
+        if with_test:
+            R.ok("R20.6", inst, "fallback at bb%s iterated under a re-tested mismatch; %d prefix_fn lookups" % (with_test, len(fallback)), loc, how="cycle")
+        else:
+            R.violation("R20.6", inst, "%s falls back along the prefix function at most once per element (no inner loop around `prefix_fn[..]` that re-tests the "
+                        "mismatch): borders of borders are skipped, so the matcher reports wrong positions for patterns with nested borders" % nm, loc)
+
+
 def run(F, R, tier):
     r20_1(F, R)
+    r20_5(F, R)
+    r20_6(F, R)
     r20_4(F, R)
     r20_2(F, R)
     r20_3(F, R)
@@ -270,6 +410,6 @@ def run(F, R, tier):
         from .. import witness
         witness.run(R, ["C20"])
     return ("Static analysis. Tag uniqueness under every schedule is decided by lock discipline in Tag::new (one guard, read and checked write-back, "
-            "strictly monotone) plus who-may rules (counter, Tag construction, forging impls, StaticTag's OnceLock). Container clauses: only the API "
-            "surface (no mutable bypass) is decided; model equivalence of the scoped map, interner correctness under collisions and KMP positions are "
-            "behavioural and not decided.")
+            "strictly monotone) plus who-may rules (counter, Tag construction, forging impls, StaticTag's OnceLock). Container clauses: the API "
+            "surface (no mutable bypass) and structural necessary conditions (purge loop, interner chain discipline, iterated KMP fallback) are decided; "
+            "model equivalence of the scoped map, full interner correctness and exact KMP positions are behavioural and not decided.")
